@@ -72,13 +72,13 @@ class Scope:
     def __init__(self):
         self.block_map = {}
         self.value_map = {}
+        self.undefined_values = {}
 
 
 class Reader:
     """Read IR-code from file"""
 
     def __init__(self):
-        self.undefined_values = {}
         self.scopes = []
 
     def read(self, f) -> ir.Module:
@@ -303,13 +303,23 @@ class Reader:
         self.scopes.append(Scope())
 
     def leave_scope(self):
-        self.scopes.pop()
+        scope = self.scopes.pop()
+        if self.scopes:
+            # What is still undefined, must be defined later on in the
+            # enclosing scope:
+            undefined_values = self.scopes[-1].undefined_values
+            for name, value in scope.undefined_values.items():
+                if name in undefined_values:
+                    value.replace_by(undefined_values[name])
+                else:
+                    undefined_values[name] = value
 
     def define_value(self, value):
         """Define a value"""
-        if value.name in self.undefined_values:
+        undefined_values = self.scopes[-1].undefined_values
+        if value.name in undefined_values:
             # Now what? Double declaration?
-            old_value = self.undefined_values.pop(value.name)
+            old_value = undefined_values.pop(value.name)
             assert isinstance(old_value, ir.Undefined)
             old_value.replace_by(value)
         self.scopes[-1].value_map[value.name] = value
@@ -326,11 +336,12 @@ class Reader:
                 value = scope.value_map[name]
                 break
         else:
-            if name in self.undefined_values:
-                value = self.undefined_values[name]
+            undefined_values = self.scopes[-1].undefined_values
+            if name in undefined_values:
+                value = undefined_values[name]
             else:
                 value = ir.Undefined(name, ir.ptr)
-                self.undefined_values[name] = value
+                undefined_values[name] = value
             if ty is not None:
                 value.ty = ty
         return value
